@@ -39,6 +39,7 @@ func checkC10(ctx *Ctx, r *Report) {
 	c12ConstructorCollections(ctx, r)
 	c10PointerHintFromFieldType(ctx, r)
 	c10ThirdHunt(ctx, r)
+	c10CueEmptyCollectionDefault(ctx, r)
 }
 
 func c10DefaultCarried(ctx *Ctx, r *Report) map[*types.Func]bool {
@@ -1762,4 +1763,52 @@ func c10ThirdHunt(ctx *Ctx, r *Report) {
 		r.Check(recursive, "kinds/go-nested-list-default", "golang.formatDefaultValue formats nested lists with their own item type", fd.Pos(), "items that are lists go back through formatDefaultValue",
 			"the items of a default list are all formatted by formatScalar, whose list branch writes []string{…} whatever the type: `matrix: [...[...int64]] | *[[1, 2], [3]]` gives [][]int64{[]string{1, 2}, []string{3}}, which does not compile")
 	}
+}
+
+// c10CueEmptyCollectionDefault: an empty list (or struct) is a value: `tags: [...string] | *[]` declares a default.
+// cueConcreteToScalar, which turns a concrete CUE value into the Go value kept as Default, must not answer nil — "no
+// default" — for it: the case clauses for the list and struct kinds have no `return nil, nil`.
+func c10CueEmptyCollectionDefault(ctx *Ctx, r *Report) {
+	fn := ctx.LookupFunc("internal/simplecue", "cueConcreteToScalar")
+	fd, _ := ctx.DeclOf(fn)
+	if fd == nil || fd.Body == nil {
+		r.Undecided("anchor lost: simplecue.cueConcreteToScalar")
+		return
+	}
+	n := 0
+	ast.Inspect(fd.Body, func(m ast.Node) bool {
+		cc, ok := m.(*ast.CaseClause)
+		if !ok {
+			return true
+		}
+		kind := ""
+		for _, e := range cc.List {
+			switch {
+			case strings.HasSuffix(exprString(e), "ListKind"):
+				kind = "list"
+			case strings.HasSuffix(exprString(e), "StructKind"):
+				kind = "struct"
+			}
+		}
+		if kind == "" {
+			return true
+		}
+		n++
+		var nilReturn token.Pos
+		ast.Inspect(cc, func(q ast.Node) bool {
+			if rs, ok := q.(*ast.ReturnStmt); ok && len(rs.Results) == 2 && exprString(rs.Results[0]) == "nil" && exprString(rs.Results[1]) == "nil" && nilReturn == token.NoPos {
+				nilReturn = rs.Pos()
+			}
+			return true
+		})
+		at := cc.Pos()
+		if nilReturn != token.NoPos {
+			at = nilReturn
+		}
+		r.Check(nilReturn == token.NoPos, "frontier/cue-empty-collection-default", "simplecue.cueConcreteToScalar keeps an empty "+kind, at, "an empty "+kind+" is returned as a value",
+			"cueConcreteToScalar answers nil — no value — for an empty "+kind+": `tags: [...string] | *[]` has no default in the IR, the strict Go decoder then demands the field (`tags: required field is missing from input`) and the constructors leave it unset")
+		return false
+	})
+	r.Count("collection kinds turned into Go values by the CUE front-end", n)
+	r.Floor("collection kinds turned into Go values by the CUE front-end", 2)
 }
